@@ -459,7 +459,7 @@ func buildC09(tier string) *core.Plan {
 		}}
 
 	return &core.Plan{
-		Spaces: []core.Space{mapOrder, keyOrder, sched, free, cli, c09RewrittenFiles()},
+		Spaces: []core.Space{mapOrder, keyOrder, sched, free, cli, c09RewrittenFiles(), c09Repeated(ins, picked)},
 		Rule: "for each input, every execution with <= bound non-default picks at the instrumented map-range sites (all sites found by vinstr in the working tree, insert-during-range latitude included); " +
 			"every interleaving with <= 2 pre-emptions (3 threads: <= 1) at accesses to mutable package-level variables; non-trivial = the input reaches at least one map-order choice point",
 		Assumptions: []string{"map iteration inside dependencies (yaml.v3, go-toml, encoding/json) is not controlled; encoding/json and go-toml sort keys, yaml.v3 sorts keys on output",
@@ -617,5 +617,31 @@ func c09RewrittenFiles() core.Space {
 				}
 			}
 			c.Outcome("follows-file-contents")
+		}}
+}
+
+// c09Repeated: every hand-picked input evaluated 1500 times in a row in one process; every run
+// gives the observation of the first (budgets, counters or caches that outlive one evaluation
+// would show as a change somewhere along the way).
+func c09Repeated(ins []c09Input, picked []int) core.Space {
+	const rounds = 1500
+	return core.Space{Name: "each-input-1500-times-in-one-process", N: int64(len(picked)), Chunk: 2,
+		Desc: func(i int64) any { return ins[picked[i]] },
+		Run: func(c *core.Ctx, i int64) {
+			in := ins[picked[i]]
+			first := in.eval()
+			for r := 1; r < rounds; r++ {
+				c.Eval()
+				if o := in.eval(); o != first {
+					c.Validated()
+					c.Outcome("DEPENDS-ON-PROCESS-HISTORY")
+					c.Fail("repeated", "result-changes-with-repetition-in-one-process", in.Kind, map[string]any{"run": r + 1, "first": clip(first), "this": clip(o)})
+					return
+				}
+			}
+			c.Trans(rounds)
+			c.Validated()
+			c.Nontrivial()
+			c.Outcome("stable-over-1500-runs")
 		}}
 }
